@@ -161,6 +161,13 @@ def run(tier, seed, replay=None):
         if with_trace:
             text, sigs = gen_vcd(rng)
             cmds += [['file', 't.vcd', text], ['load', 't.vcd', 'DEFAULT']]
+        if with_trace and rng.random() < 0.4:
+            # a first trace with the same signal names (other widths/values) is queried, unloaded and replaced
+            text0, sigs0 = gen_vcd(rng)
+            warm = [gen_expr(rng, sigs0) for _ in range(6)] + [(f'(signed {n})', 0, True) for n, w, v in sigs0]
+            cmds = [['file', 't0.vcd', text0], ['load', 't0.vcd', 'DEFAULT'],
+                    ['evalstr', '111', '(list ' + ' '.join(e[0] for e in warm) + ')'],
+                    ['evalstr', '111', '(unload "DEFAULT")']] + cmds
         exprs = [gen_expr(rng, sigs) for _ in range(per)]
         cmds.append(['evalstr', '111', '(list ' + ' '.join(e[0] for e in exprs) + ')'])
         cases.append({'id': c, 'cmds': cmds, 'expect': [e[1] for e in exprs], 'texts': [e[0] for e in exprs]})
